@@ -478,6 +478,12 @@ def verify(t: Target, seed=0, prefixes=None, budget=None, budget_s=None):
                         cand = find_counterexample(ob.pc, ob.goal)
                     except z3.Z3Exception:
                         cand = None
+                    if cand is None and getattr(t, 'battery_on_unknown', False):
+                        # no bounded instantiation either: give the target's native scenario battery a chance, starting from the
+                        # all-defaults input (only an input on which the REAL function breaks the clause is ever reported)
+                        s0 = z3.Solver()
+                        s0.check()
+                        cand = s0.model()
                 if cand is not None:
                     w = replay(t, ob, cand, mod)
                     if not w.get('replayed'):
@@ -799,6 +805,7 @@ def replay(t: Target, ob, model, mod):
         if t.native_call is None:
             w['reason'] = 'no native replay defined for this target'
             return w
+        t.current_clause = getattr(info.get('clause'), 'name', None)  # (a native scenario battery may look for a failure of THIS clause)
         out = t.native_call(mod, conc, model)
         w['observed'] = repr(out)[:400]
         cl = info.get('clause')
